@@ -16,6 +16,7 @@ import (
 	"testing/synctest"
 	"time"
 
+	"go.opentelemetry.io/collector/exporter/exporterhelper/internal/experr"
 	"go.opentelemetry.io/collector/exporter/exporterhelper/internal/request"
 )
 
@@ -91,6 +92,7 @@ type vQRun struct {
 	sizeFn     func() int64
 	qidsFn     func() []int // ids still queued, head first (read from the implementation's own structures)
 	shutdownFn func()
+	shutErr3   bool   // `done id 3` completes with a shutdown-classified error (persistent queue)
 	restoreOp  string // persistent queue restarted on non-empty storage: `op restore size=<restored> id el ...`
 	prods    map[int]*vQProd
 	cons     map[int]*vQCons
@@ -279,6 +281,11 @@ func (r *vQRun) apply(op vQOp) {
 		var err error
 		if op.b != 0 {
 			err = vErr(op.b)
+			if r.shutErr3 && op.b == 3 {
+				// persistent queue: an outcome classified as shutdown error (what the retry sender returns once it is stopped):
+				// the item stays stored and dispatched, the size is released and the blocked producers must be woken all the same
+				err = experr.NewShutdownErr(err)
+			}
 		}
 		r.mu.Lock()
 		r.pendDone++
